@@ -43,13 +43,14 @@ var idSignature = map[string]string{
 	"N10": "fusion:slash-star-opens-comment",
 	"N11": "datauri:css-escape-in-url",
 	"N12": "datauri:charset-without-type-dropped",
-	"N13": "zero-unit-dropped:math-function",
+	"N13": "math-function:newer-css-values-4-function-not-understood",
 	"N14": "background:size-minified-as-position",
 	"N15": "unicode-range:initial-in-list",
 	"N16": "bgpos:zero-removed-from-earlier-layer",
 	"N17": "font:first-word-of-dash-family-quoted",
 	"N18": "dimension:unit-with-non-letter-mangled",
 	"N19": "fusion:plus-sign-removed-inside-function",
+	"N20": "fusion:hex-escape-swallows-separator",
 }
 
 func (f *Finding) Signature() string {
